@@ -32,3 +32,19 @@ impl TraitHandler for HashHandler {
         }
     }
 }
+
+/// A name for the `Hasher` type parameter of the generated `hash` method which none of the
+/// generic parameters of the type itself uses (a type parameter called `H` must not be shadowed).
+pub(crate) fn hasher_ident(ast: &DeriveInput) -> syn::Ident {
+    let mut name = String::from("__H");
+
+    while ast.generics.params.iter().any(|param| match param {
+        syn::GenericParam::Type(param) => param.ident == name,
+        syn::GenericParam::Const(param) => param.ident == name,
+        syn::GenericParam::Lifetime(_) => false,
+    }) {
+        name.push('_');
+    }
+
+    syn::Ident::new(&name, proc_macro2::Span::call_site())
+}
